@@ -85,7 +85,18 @@ def run(rep, tier, seed, proof_ok):
                 "and on the non-accepted side x 7 import forms (the 5 above + attribute chains starting at an alias of the top-level package / of a "
                 "package in the middle of the chain); history of one edit per side (quick) or of the 4 edits replayed by fresh processes on one local "
                 "store, judged as for the shapes; besides, an accepted module must never be refused as not accepted (MODULE_NOT_FOUND) when plain "
-                "execution works, and the data function of the non-accepted twin module must be refused with a DDS error naming the module")
+                "execution works, and the data function of the non-accepted twin module must be refused with a DDS error naming the module; "
+                "then REPEATED REQUESTS IN ONE PROCESS (harness/c14_repeat.py): in trees of depth 1..4 quick / 1..6 x accepted prefix at every depth x 1..40 "
+                "accepted packages x the three twins x 5 import forms, one process (notebook cell run again, driver that catches and retries) makes a script of "
+                "5..14 requests f() / dds.keep / dds.eval on one local store: one of 7 refusal scenarios (data function / plain function / function with "
+                "arguments / function that keeps of the non-accepted module at top level; accepted root that calls the data function, keeps a function, calls a "
+                "keeping function of the non-accepted module) asked 2..4 times through every entry point in every order with the same and with other "
+                "arguments, a second refusal scenario asked 1..2 times, 1..3 requests of the accepted module (some twice) interleaved at random positions, in "
+                "one script of three dds.accept_module(twin) in the middle of the life of the process followed by the requests refused before; EVERY "
+                "request of a non-accepted function must be refused with a DDS error naming the module, execute no generated code (execution counter outside of "
+                "dds) and leave paths and blobs of the store untouched, every accepted request must succeed after any number of refusals with the value of plain "
+                "execution and the signature that a bare process (fresh process and store, no refusal before) commits, after the late accept_module the value "
+                "of plain execution and the signature of a process that accepted the twin from the start")
     cases = gen_cases(rng, tier)
     impl = C.run_driver("drive_small.py", {"kind": "authorized", "cases": cases})
     model = C.coq_eval_strings(PRELUDE, [f"run_authorized {lst(c['parts'])} {lst(c['accepted'])}" for c in cases], label="c14")
@@ -127,6 +138,14 @@ def run(rep, tier, seed, proof_ok):
                                             "distinct_leaf_x_side_x_form_x_levelkinds_x_container": kp["distinct_leaf_side_form_levelkinds_container"],
                                             "kind_root_evaluations_judged": kp["root_evaluations_judged"],
                                             "data_functions_of_non_accepted_modules_by_kind": kp["data_functions_of_non_accepted_modules"]})
+    import c14_repeat
+    c14_repeat.run(rep, tier, seed, proof_ok, rng)
+    rp = rep.extra["repeat_part"]
+    rep.extra["input_distribution"].update({"repeat_configurations": rp["configurations"], "repeat_scripts_one_process_each": rp["scripts"],
+                                            "repeat_scripts_with_late_accept_module": rp["scripts_with_late_accept_module"], "repeat_requests": rp["requests"],
+                                            "repeat_refusal_scenarios": rp["refusal_scenarios"],
+                                            "distinct_refusal_scenario_x_entry_point_sequence": rp["distinct_refusal_scenario_x_entry_point_sequence"],
+                                            **{"repeat: " + k: v for k, v in rp.items() if " judged" in k or " after " in k}})
 
 
 def replay(path):
@@ -137,6 +156,9 @@ def replay(path):
         print(json.dumps({"case": r["case"], "impl": i, "expected": exp}))
         print("REPRODUCED" if i != exp else "not reproduced")
         return 1 if i != exp else 0
+    if "repeat_case" in r:
+        import c14_repeat
+        return c14_repeat.replay(r)
     if "kind_case" in r:
         import c14_kinds
         return c14_kinds.replay(r)
